@@ -239,7 +239,7 @@ def prepare(tier):
         _P["sets"][fam] = taken
 
 
-E2_BUCKETS = 12
+E2_BUCKETS = 48
 
 
 def iter_edit2(fam, tier, bucket):
@@ -282,7 +282,7 @@ def short_size(fam, tier):
 def prefix_len(fam, tier):
     atoms, n = short_params(fam, tier)
     p = 1
-    while p < n - 1 and short_size(fam, tier) / float(len(atoms) ** p) > 40000:
+    while p < n - 1 and short_size(fam, tier) / float(len(atoms) ** p) > 12000:
         p += 1
     return p
 
